@@ -303,7 +303,12 @@ class Builder:
                         w[k] = v
                         self.keepalive.append(v)
                     except TypeError:
-                        raise Undecidable("weak dict entry is not weak-referenceable")
+                        # the model picked a value that cannot be weakly referenced (a str / int / None): a WeakValueDictionary can only hold
+                        # weak-referenceable objects, so an abstract object stands in for it (the clause is evaluated on what the real code does with it)
+                        o = Opaque("weak_%s" % k)
+                        w[k] = o
+                        self.keepalive.append(o)
+                        self.notes.append("weak dict %s[%r]: the model's value %r is not weak-referenceable; an abstract object stands in" % (name, k, v))
                 return w
             return d
         if t == "List":
